@@ -6,6 +6,7 @@ CONSTANTS NP = 4
   ProbeHws <- PHws
   InitSets <- Init4w
   MaxEarly = 99
+  LisModes <- LisAll
   D = 0
 INIT TrInit
 NEXT TrNext
